@@ -1,16 +1,15 @@
 #!/bin/sh
-# tools/mutrun.sh <patch> <check ids...> : apply a mutant to /repo, run the checks, restore /repo.
-# Only for validating the machinery; nothing is committed to /repo.
+# tools/mutrun.sh <patch> <check ids...> : apply a mutant to a scratch worktree of /repo (HEAD), run the checks
+# against it (FURAX_REPO), remove the worktree.  /repo itself is never touched.
 patch=$1; shift
-cd /repo || exit 2
-git diff --quiet || { echo "/repo is dirty"; exit 2; }
-git apply "$patch" || exit 2
+wt=/var/tmp/mutwt.$$
+git -C /repo worktree add -q --detach "$wt" HEAD || exit 2
+( cd "$wt" && git apply "$patch" ) || { git -C /repo worktree remove --force "$wt"; exit 2; }
 for c in "$@"; do
-  out=$(cd /verif && timeout 3000 ./check "$c" --tier "${TIER:-quick}" 2>&1 | grep -v "Converged\|64-bit")
-  rc=$?
+  out=$(cd /verif && FURAX_REPO="$wt" timeout 3000 ./check "$c" --tier "${TIER:-quick}" 2>&1 | grep -v "Converged\|64-bit")
   nviol=$(printf '%s\n' "$out" | grep -c '^VIOLATION')
   nmach=$(printf '%s\n' "$out" | grep -c 'MACHINERY-ERROR')
   echo "$(basename "$patch") $c: violations=$nviol machinery=$nmach"
   printf '%s\n' "$out" | grep -E '^VIOLATION|MACHINERY' | head -3 | cut -c1-220
 done
-git -C /repo checkout -- .
+git -C /repo worktree remove --force "$wt"
